@@ -25,6 +25,7 @@ RULE = ("lattice: LinSolve over {18+3 matrix families (general, symmetric indefi
         "non-empty x index order x {auto, SparseLU}. A point is non-trivial if the matrix couples the dofs the module "
         "separates (not diagonal / A_fp != 0 / A_mf != 0 and A_fm != 0); distinct by the full axis tuple")
 RULE += " Extended in seeding rounds 6-7:  SystemOfEquations after a rejected first call, a second load case with the first pair (x, b) held by reference; LinSolve fed its own previous solution object."
+RULE += " Round 7 (late): scipy sparse array containers through LinSolve / SystemOfEquations / StaticCondensation; CG override for StaticCondensation."
 ASSUMPTIONS = [
     "numpy dense algebra (matmul, linalg.solve, svd) is the trusted kernel of the reference",
     "matrices are admissible if the reference condition number (of A, of A_ff, of the main+free block) is <= 1e4; "
